@@ -181,7 +181,9 @@ def shard_words(acc, shard, nshards, max_n):
             if i % nshards == shard:
                 acc.record("word", check_word, w)
             i += 1
-    for n in range(max_n + 1):
+    # the tables go one length further than the word sweep: length 6 is the first with
+    # permutations that have no pin word at all
+    for n in range(max_n + 2):
         if n % nshards == shard:
             acc.record("tables", check_tables, n)
     for n in range(2, 8):
